@@ -87,7 +87,7 @@ pub fn angle(a: [f64; 3], b: [f64; 3]) -> f64 {
 
 pub fn search_c01(rng: &mut Rng, thorough: bool) -> SearchResult {
     let mut r = SearchResult::default();
-    r.rule = "lookups at every resolution 0..29 for points of all kinds (uniform, polar caps, exact poles, antimeridian, face seams and vertices, points hugging cell edges and vertices, longitudes shifted by multiples of 360): the call succeeds, the ID is canonical of the requested resolution, and a5cell_contains_point of the returned cell is positive or within the 1e-11 edge band; lon + 360k (k = -1..1, and k = +-1e3, 1e6, 1e9, 1e12) gives a cell containing the same physical point. non-trivial = distinct (point, resolution) pairs".into();
+    r.rule = "lookups at every resolution 0..29 for points of all kinds (uniform, polar caps, exact poles, antimeridian, face seams and vertices, points hugging cell edges and vertices, longitudes shifted by multiples of 360): the call succeeds, the ID is canonical of the requested resolution, and a5cell_contains_point of the returned cell is positive or within the 1e-11 edge band; lon + 360k (k = -1..1, k = +-1e3, 1e6, 1e9, 1e12, and longitudes just below 2^30..2^52) gives a cell containing the same physical point. non-trivial = distinct (point, resolution) pairs".into();
     let n = if thorough { 1_500_000 } else { 150_000 };
     let mut worst: f64 = 0.0;
     for k in 0..n {
@@ -117,6 +117,24 @@ pub fn search_c01(rng: &mut Rng, thorough: bool) -> SearchResult {
         }
         let zone = if lat.abs() >= 89.999 { "pole" } else if lat.abs() >= 65.0 { "polar_cap" } else { "mid" };
         r.count(zone);
+        // longitudes just below a power of two (2^30 .. 2^52 degrees): any reduction that first ADDS something to the
+        // longitude crosses into the next binade there and rounds; the exact f64 remainder does not
+        if k % 64 == 6 {
+            let n = rng.range_i(30, 52) as i32;
+            let lon2 = 2f64.powi(n) - 180.0 * rng.unit();
+            let red = lon2 % 360.0;
+            for res2 in [29, res] {
+                if let Ok(Ok(id2)) = std::panic::catch_unwind(|| lonlat_to_cell(LonLat::new(lon2, lat), res2)) {
+                    let d2 = outside_distance(id2, red, lat);
+                    if !(d2 < BAND) {
+                        r.viol("lookup:periodic:far", format!("lonlat_to_cell(({}, {}), {}) = {:x} does not contain the point it denotes (longitude {} = {} mod 360): distance to the cell {:e}", lon2, lat, res2, id2, red, lon2, d2));
+                    }
+                } else {
+                    r.viol("lookup:fail", format!("lonlat_to_cell(({}, {}), {}) fails", lon2, lat, res2));
+                }
+            }
+            r.count("far_longitude_binade_edge");
+        }
         // periodicity in longitude far from the principal range: 360*m + lon for large m.  The f64 value lon2 is
         // an exact real number; the physical point it denotes has longitude lon2 mod 360 (the f64 remainder is exact)
         if k % 64 == 5 {
@@ -463,7 +481,7 @@ fn ring(id: u64, segments: Option<i32>, closed: bool) -> Vec<LonLat> {
 
 pub fn search_c11(rng: &mut Rng, thorough: bool) -> SearchResult {
     let mut r = SearchResult::default();
-    r.rule = "cells of every resolution (random, on the antimeridian, within 1 degree of and at the poles) x closed/open ring x subdivision n in {1,2,3,8,64,default}: ring length = vertices*n (+1 closed), closing point repeats the first, finite coordinates, latitudes in [-90,90], counter-clockwise orientation and centre inside (signed spherical winding around the centre), longitudes within a 180 degree window unless the cell touches a pole, corner points identical for every n. non-trivial = distinct (cell, n, closed) triples".into();
+    r.rule = "cells of every resolution (random, on the antimeridian, within 1 degree of and at the poles) x closed/open ring x subdivision n in {1,2,3,8,64, any n in 1..64, default}: ring length = vertices*n (+1 closed), closing point repeats the first, finite coordinates, latitudes in [-90,90], counter-clockwise orientation and centre inside (signed spherical winding around the centre), longitudes within a 180 degree window unless the cell touches a pole, corner points identical for every n. non-trivial = distinct (cell, n, closed) triples".into();
     for k in 0..(if thorough { 40_000 } else { 5_000 }) {
         let res = rng.range_i(0, 29) as i32;
         let id = match k % 5 {
@@ -473,7 +491,7 @@ pub fn search_c11(rng: &mut Rng, thorough: bool) -> SearchResult {
             _ => random_cell(rng, res),
         };
         let nverts = if res == 1 { 3 } else { 5 };
-        let n_opt = match rng.below(6) { 0 => Some(1), 1 => Some(2), 2 => Some(3), 3 => Some(8), 4 => Some(64), _ => None };
+        let n_opt = match rng.below(8) { 0 => Some(1), 1 => Some(2), 2 => Some(3), 3 => Some(8), 4 => Some(64), 5 | 6 => Some(rng.range_i(1, 64) as i32), _ => None };
         let n = n_opt.unwrap_or_else(|| std::cmp::max(1, 2_i32.pow((6 - res).max(0) as u32)));
         let closed = rng.chance(1, 2);
         let b = ring(id, n_opt, closed);
